@@ -411,6 +411,8 @@ def run(chk):
                            'weight-precision coefficient it additionally requires that the metric differs between the decided '
                            '(one-hot) alternatives of that quantizer: a rounded hardware model evaluated at a soft mixture moves by '
                            'a few cycles when any coefficient moves even where it ignores the weight bits (NE16 1x1 / linear)')
+    chk.assumptions.append('a PIT mask parameter that is exactly 0 is not probed: theta = |alpha| has derivative 0 there (a measure-zero '
+                           'point; an element that lands exactly on 0 receives no gradient from cost or task loss any more)')
     chk.assumptions.append('costs of SuperNet / MPS / ODiMO models are evaluated after a forward pass (the coefficients are sampled in '
                            'forward; before the first forward, or after alpha was written without one, the cost is stale)')
     chk.prove()
